@@ -18,8 +18,9 @@ import base64
 import dataclasses
 import re
 import types
-from datetime import date, datetime
+from datetime import date, datetime, time
 from typing import Any, Callable, TypeVar, Union, get_args, get_origin, get_type_hints
+from uuid import UUID
 
 import cattrs
 from cattrs.errors import BaseValidationError, ClassValidationError, IterableValidationError
@@ -294,10 +295,52 @@ def unstructure_date(data: date) -> str:
 
 
 # Register datetime and date handling
+def structure_time(data: str | time, _: type[time]) -> time:
+    """
+    Structure hook for time fields (OpenAPI format "time", ISO 8601 time string).
+
+    Raises:
+        ValueError: If string is not a valid ISO 8601 time
+    """
+    if isinstance(data, time):
+        return data
+    if isinstance(data, str):
+        return time.fromisoformat(data)
+    raise TypeError(f"Cannot convert {type(data)} to time")
+
+
+def unstructure_time(data: time) -> str:
+    """Unstructure hook for time to ISO 8601 string."""
+    return data.isoformat()
+
+
+def structure_uuid(data: str | UUID, _: type[UUID]) -> UUID:
+    """
+    Structure hook for UUID fields (OpenAPI format "uuid").
+
+    Raises:
+        ValueError: If string is not a valid UUID
+    """
+    if isinstance(data, UUID):
+        return data
+    if isinstance(data, str):
+        return UUID(data)
+    raise TypeError(f"Cannot convert {type(data)} to UUID")
+
+
+def unstructure_uuid(data: UUID) -> str:
+    """Unstructure hook for UUID to its canonical string form."""
+    return str(data)
+
+
 converter.register_structure_hook(datetime, structure_datetime)
 converter.register_unstructure_hook(datetime, unstructure_datetime)
 converter.register_structure_hook(date, structure_date)
 converter.register_unstructure_hook(date, unstructure_date)
+converter.register_structure_hook(time, structure_time)
+converter.register_unstructure_hook(time, unstructure_time)
+converter.register_structure_hook(UUID, structure_uuid)
+converter.register_unstructure_hook(UUID, unstructure_uuid)
 
 
 # =============================================================================
